@@ -16,13 +16,13 @@ type o1Entry struct {
 }
 
 var (
-	o1Table     = map[string]o1Entry{}
-	o1Resets    int
-	o1Compared  int64
-	o1Calm      int64
-	o1Distinct  int64
-	eqTable     = map[string]o1Entry{}
-	eqCompared  int64
+	o1Table    = map[string]o1Entry{}
+	o1Resets   int
+	o1Compared int64
+	o1Calm     int64
+	o1Distinct int64
+	eqTable    = map[string]o1Entry{}
+	eqCompared int64
 )
 
 // The persistent vault: a ring of strings and error values handed out in
